@@ -259,8 +259,11 @@ impl Report {
             "coverage": Value::Object(cov), "assumptions": self.assumptions,
         });
         if self.write_files {
-            let _ = std::fs::create_dir_all(root.join("evidence"));
-            let p = root.join("evidence").join(format!("{}.json", self.prop));
+            // PVERIF_EVIDENCE_DIR: used when a check is run against a deliberately broken tree (seeded
+            // changes), so that the committed evidence only ever describes the unchanged tree
+            let dir = std::env::var("PVERIF_EVIDENCE_DIR").map(PathBuf::from).unwrap_or(root.join("evidence"));
+            let _ = std::fs::create_dir_all(&dir);
+            let p = dir.join(format!("{}.json", self.prop));
             std::fs::write(&p, serde_json::to_string_pretty(&ev).unwrap()).expect("cannot write evidence");
         }
         println!(
